@@ -114,6 +114,23 @@ def run_names_case(nc):
                     check_built(d, S, cls, cname, recs, exact_flavor=False)
                     if d["flavor"] != flavor:
                         recs.append(dict(base, kind="wrong-flavor", got=d["flavor"], want=flavor))
+    # ---- from_<system> class methods (positional values in the order of the system's name)
+    if cls["ok"] == "T" and cls["flavor"] == "generic":
+        order = {"xy": ["x", "y"], "rhophi": ["rho", "phi"]}[cls["az"]] + ([cls["lon"]] if cls["lon"] != "none" else []) + ([cls["tmp"]] if cls["tmp"] != "none" else [])
+        for flavor in ("generic", "momentum"):
+            klass = getattr(vector, ("VectorObject" if flavor == "generic" else "MomentumObject") + f"{cls['dim']}D")
+            meth = "from_" + "".join(order)
+            calls += 1
+            base = {"op": f"{klass.__name__}.{meth}", "names": sorted(S), "tag": "ctor"}
+            try:
+                v = getattr(klass, meth)(*[value_of(n) for n in order])
+            except Exception as ex:
+                recs.append(dict(base, kind="exception", error=f"{type(ex).__name__}: {ex}"[:200]))
+                continue
+            d = describe_obj(v)
+            check_built(d, S, cls, base["op"], recs, exact_flavor=False)
+            if d["flavor"] != flavor or type(v) is not klass:
+                recs.append(dict(base, kind="wrong-flavor", got=type(v).__name__, want=klass.__name__))
     # ---- array constructors
     if S:
         ctors = {
